@@ -420,7 +420,9 @@ func (g *Gen) inType() (*TExpr, string) {
 	cs := []cand{{"Int", "3"}, {"String", `"x"`}, {"Boolean", "true"}, {"Float", "1.5"}, {"ID", `"id"`}}
 	for _, t := range g.all("enum") {
 		if len(t.Values) > 0 {
-			cs = append(cs, cand{t.Name, t.Values[0]})
+			// any value may serve as a default, also one that another arrangement
+			// of the same definitions declares through an extend block
+			cs = append(cs, cand{t.Name, t.Values[g.T.Draw(len(t.Values))]})
 		}
 	}
 	for _, t := range g.all("input") {
@@ -528,6 +530,12 @@ func (g *Gen) newObject(name string) Fragment {
 func (g *Gen) Valid() Fragment {
 	if g.St.ByName["Query"] == nil && !g.hasPending("Query") && g.T.Bool(4, 5) {
 		return g.newObject("Query")
+	}
+	// the other operation root types are found by name as well
+	for _, n := range []string{"Mutation", "Subscription"} {
+		if g.St.ByName[n] == nil && !g.hasPending(n) && g.T.Bool(1, 8) {
+			return g.newObject(n)
+		}
 	}
 	for tries := 0; tries < 8; tries++ {
 		switch g.T.Draw(16) {
